@@ -318,6 +318,9 @@ def gen_precedence(rnd, idx):
         k = rnd.choice(WIDTHS)
         inl = [[k, DEFAULT_WIDTH[k]], rnd.choice([[MW, rnd.choice([120, 150, 200, 300])], [USH, 1]])]
         rnd.shuffle(inl)
+        # (a max_width / heuristics mode / width from the FILE would make the outcome depend on the order in which the --config
+        # pairs are applied: the recorded finding config_order_nondeterministic)
+        f = [kv for kv in (f or []) if kv[0] not in WIDTHS and kv[0] not in (MW, USH)] or None
     elif x < 0.2:
         # ... or the successor of a deprecated alias pinned to its default next to the alias
         inl = rnd.choice([[[IG, 0], [MI, 1]], [[FPL, 1], [FAL, rnd.choice([0, 2])]], [[SPE, 1], [HPE, 1]]])
